@@ -428,6 +428,7 @@ impl Check for C13 {
             "complete product: list patterns of width 0..{} over {{name, _, [n, n], [n, ..n], {{\"k\": n}}, {{k}}}} x {{no rest, ..r, .._}} x source lengths 0..max(5, width + 1) x 4 binding positions (declaration, assignment, for target, parameter), a wrong-kind element under each nested item, non-list sources; object patterns over every ordered selection of <= 3 of the keys a, b, c x 4 entry forms (shorthand, rename, rename to _, nested list) x rest x all 32 source key subsets of {{a, b, c, x, y}} x binding positions, non-object sources; 30 malformed patterns; spread laws for all length pairs 0..3; argument splits of 0..5 arguments over parameter lists of arity 0..4 with and without rest; 20 programs whose targets are elements of the source or whose literal source reads the targets (swaps, rotations); non-trivial = all (distinct tuples)",
             width
         );
+        ctx.rule.push_str("; bound functions through argument spreads, literal spreads and concatenation; 21 parameter lists (repeated names inside one pattern, literals, collectors, discards) x 5 function forms, defined and never called; pattern keys that read names bound earlier in the same pattern");
         let mut cases = vec![];
         list_cases(width, &mut cases);
         let n_list = cases.len();
